@@ -193,3 +193,47 @@ def assigned_paths(n):
             if p:
                 out.add(p)
     return out
+
+
+def single_definitions(body):
+    """{variable path: Poly} for integer locals that are defined exactly once in the function (initialiser or one
+    plain assignment, never ++/--/op=): their value can be propagated into index expressions."""
+    from .sym import Poly
+    count = {}
+    rhs = {}
+    for x in walk(body):
+        k = x.get('kind')
+        if k == 'VarDecl' and kids(x) and 'int' in (fe.qual(x) + ' ' + (x.get('type') or {}).get('qualType', '')) or \
+           (k == 'VarDecl' and kids(x) and fe.qual(x) in ('unsigned long', 'long', 'int', 'unsigned int')):
+            p = '%s#%s' % (x['name'], x['id'])
+            count[p] = count.get(p, 0) + 1
+            rhs[p] = kids(x)[-1]
+        elif k == 'CompoundAssignOperator' or (k == 'UnaryOperator' and x.get('opcode') in ('++', '--')):
+            p = exprs.path_of(kids(x)[0])
+            if p:
+                count[p] = count.get(p, 0) + 2
+        elif k == 'BinaryOperator' and x.get('opcode') == '=':
+            p = exprs.path_of(kids(x)[0])
+            if p and '->' not in p and '[' not in p and '.' not in p:
+                count[p] = count.get(p, 0) + 1
+                rhs[p] = kids(x)[1]
+        elif k == 'UnaryOperator' and x.get('opcode') == '&':
+            p = exprs.path_of(kids(x)[0])
+            if p:
+                count[p] = count.get(p, 0) + 2
+    env = {}
+    for p, c in count.items():
+        if c == 1 and p in rhs and fe.qual(strip(rhs[p], casts=False)) not in ('double', 'float'):
+            v = exprs.to_poly(rhs[p])
+            if not any(a.startswith('?') for a in v.atoms()) and p not in v.atoms():
+                env[p] = v
+    return env
+
+
+def propagate(p, env, depth=4):
+    for _ in range(depth):
+        q = p.subst(env)
+        if q == p:
+            break
+        p = q
+    return p
